@@ -224,6 +224,10 @@ bool XmlNode::isComment() const
 
 std::string XmlNode::name() const
 {
+    // Some node types (CDATA sections, for instance) have no name.
+    if (mPimpl->mXmlNodePtr->name == nullptr) {
+        return {};
+    }
     return reinterpret_cast<const char *>(mPimpl->mXmlNodePtr->name);
 }
 
